@@ -110,7 +110,7 @@ class Task:
 class Sched:
     """Baton-passing scheduler.  Every choice of who runs next comes from the tape."""
 
-    def __init__(self, ctx, step_cap=5000, policy="uniform"):
+    def __init__(self, ctx, step_cap=200000, policy="uniform"):
         self.ctx = ctx
         self.tape = ctx.tape
         self.policy = policy
@@ -428,7 +428,7 @@ class SimDate:
 class ProcessSim:
     """One in-process run of an MCHap program under the simulated OS."""
 
-    def __init__(self, ctx, proc_rng_init=True, step_cap=5000, capacity=None, policy="uniform"):
+    def __init__(self, ctx, proc_rng_init=True, step_cap=200000, capacity=None, policy="uniform"):
         self.policy = policy
         self.ctx = ctx
         self.m = bootstrap()
